@@ -248,7 +248,8 @@ def gen_pipe(rnd, depth, allow_inf=False):
     if p is None:
         kind = rnd.choice(["chain", "chain", "chain", "concat", "flatmap"])
         if kind == "concat":
-            p = f"(concat {gen_pipe(rnd, depth - 1)} {gen_pipe(rnd, depth - 1)})"
+            members = [gen_pipe(rnd, depth - 1) if rnd.random() < 0.7 else "(src 0)" for _ in range(rnd.randint(2, 4))]
+            p = "(concat " + " ".join(members) + ")"
         elif kind == "flatmap":
             fam = rnd.choice(['rep', 'tri'])       # `tri K` uses take(K): K >= 1 (take(0) is outside the property: n >= 1)
             p = f"(flatmap {fam} {rnd.randint(0 if fam == 'rep' else 1, 3)} {gen_pipe(rnd, depth - 1)})"
@@ -283,7 +284,7 @@ def run_pipelines(prop, tier, seed, ctx):
     N = 3000 if tier == "quick" else 150000
     progs = set()
     fixed = ["(src 0)", "(src 3)", "(take 2 (inf 7))", "(take 3 (filter mod 2 0 (src 4)))", "(filter mod 2 1 (src 6 2))",
-             "(concat (src 2) (concat (src 0) (src 3)))", "(flatmap rep 2 (src 3))", "(take 4 (flatmap tri 2 (src 9)))",
+             "(concat (src 2) (concat (src 0) (src 3)))", "(concat (src 2) (src 0) (src 3))", "(concat (src 0) (src 0) (src 2) (src 0) (src 1))", "(flatmap rep 2 (src 3))", "(take 4 (flatmap tri 2 (src 9)))",
              "(skip 2 (scan lin 2 1 (map mul 3 (src 6))))", "(take 2 (concat (take 1 (inf 3)) (src 4)))",
              "(flatmap rep 0 (src 4))", "(take 3 (flatmap rep 2 (take 5 (inf 1))))"]
     progs.update(fixed)
